@@ -76,6 +76,10 @@ fn main() {
         std::process::exit(2);
     }
 
+    if let Err(e) = vharness::oracle::self_test_medium() {
+        println!("INCONCLUSIVE medium-size oracle self-test failed: {}", e);
+        std::process::exit(2);
+    }
     if let Err(e) = vharness::checks::composite::self_test_closed() {
         println!("INCONCLUSIVE closed-form self-test failed: {}", e);
         std::process::exit(2);
